@@ -26,3 +26,7 @@ LEMMAS = ["Marginal.lean"]
 ASSUMPTIONS = KN.ASSUMPTIONS + ["numpy Generator.multivariate_normal draws independently from N(mean, cov) (its law is not decided)",
                                 "np.linalg.inv is the two-sided inverse"]
 NOT_DECIDED = ["that the draws are distributed as N(a, A) and independent (numpy)"]
+
+# the plumbing this property's claim runs through (contracts/chain.py): listed here too, so that a change inside it is caught by THIS check
+from . import chain as CH   # noqa: E402
+CH.extend(CONTRACTS, CH.readers() + CH.plumbing(('post',)) + CH.tables(pack=True, unpack=True))
